@@ -578,6 +578,79 @@ package jd
 //@   ensures_bounded ret0 == 0
 //@   carries C08
 
+// ---------------------------------------------------------------------
+// The same property-level statements over deterministic pseudo-random (a, b, c) triples: longer
+// arrays with repeats, deeper nesting, paths of length 3..5 (verif_random.go). Zipped universes:
+// a, b and c number k belong together.
+
+//@ contract verifRandDiff
+//@   bounded
+//@   universe a verifRandANF(TIER)
+//@   universe b verifRandBNF(TIER)
+//@   zip a b
+//@   requires validNode(a) && validNode(b) && verifDomain(a, b, options)
+//@   ensures_bounded [C01] verifPatchGives(a, ret0, b, options)
+//@   ensures_bounded [C05] (len(ret0) == 0) == a.Equals(b, options...)
+//@   ensures_bounded [C05] (len(ret0) == 0) == specEq(a, b, options)
+//@   carries C01 C05
+
+//@ contract verifRandStrict
+//@   bounded
+//@   universe a verifRandA(TIER)
+//@   universe b verifRandB(TIER)
+//@   universe c verifRandC(TIER)
+//@   zip a b c
+//@   requires validNode(a) && validNode(b) && validNode(c)
+//@   ensures_bounded ret0 == ""
+//@   carries C03
+
+//@ contract verifRandHunks
+//@   bounded
+//@   universe a verifRandA(TIER)
+//@   universe b verifRandB(TIER)
+//@   zip a b
+//@   requires validNode(a) && validNode(b)
+//@   ensures_bounded ret0 == ""
+//@   carries C06 C07
+
+//@ contract verifRandText
+//@   bounded
+//@   universe a verifRandA(TIER)
+//@   universe b verifRandB(TIER)
+//@   zip a b
+//@   requires validNode(a) && validNode(b)
+//@   ensures_bounded ret0
+//@   carries C02
+
+//@ contract verifRandPatch6902
+//@   bounded
+//@   universe a verifRandA(TIER)
+//@   universe b verifRandB(TIER)
+//@   universe c verifRandC(TIER)
+//@   zip a b c
+//@   requires validNode(a) && validNode(b) && validNode(c)
+//@   ensures_bounded ret0 == ""
+//@   carries C09 C10
+
+//@ contract verifRandMerge7386
+//@   bounded
+//@   universe a verifRandANF(TIER)
+//@   universe b verifRandBNF(TIER)
+//@   zip a b
+//@   universe options [][]Option{{MERGE}, {SET, MERGE}, {MULTISET, MERGE}}
+//@   requires !a.Equals(b, verifEqualOptions(options)...)
+//@   ensures_bounded ret0
+//@   carries C11
+
+//@ contract verifRandPure
+//@   bounded
+//@   universe a verifRandA(TIER)
+//@   universe b verifRandB(TIER)
+//@   zip a b
+//@   requires validNode(a) && validNode(b)
+//@   ensures_bounded ret0
+//@   carries C15
+
 // Process-level stand-ins for the CLI (C14 / C13): the verifier builds both binaries from the
 // working tree and exports their paths before running these.
 //@ contract verifCLICheck
